@@ -2472,6 +2472,7 @@ impl Exec {
         let msg = from_pmsg(pm);
         // KF-1 bookkeeping: which copies are fed by a sender that is behind the copy's watermark
         let mut taint_updates: Vec<(ChitchatId, Option<bool>)> = Vec::new();
+        let mut taint_if_created: Vec<(ChitchatId, bool)> = Vec::new();
         if let (Some(ghost), Some(ctx)) = (ghost, self.nodes.get(&slot)) {
             let delta = match pm {
                 PMsg::SynAck { delta, .. } | PMsg::Ack { delta } => Some(delta),
@@ -2480,7 +2481,12 @@ impl Exec {
             if let Some(delta) = delta {
                 for nd in &delta.node_deltas {
                     let Some((horizon, sender_tainted)) = ghost.get(&nd.chitchat_id) else { continue };
-                    let Some(r) = ctx.cc.node_state(&nd.chitchat_id) else { continue };
+                    let Some(r) = ctx.cc.node_state(&nd.chitchat_id) else {
+                        // no copy yet: if this very message creates it (digest entry of a SYN-ACK),
+                        // the new copy is built from the sender's, and inherits its taint
+                        taint_if_created.push((nd.chitchat_id.clone(), *sender_tainted));
+                        continue;
+                    };
                     match verif::node_check_delta_status(r, nd) {
                         1 => {
                             let pattern = r.last_gc_version() > nd.max_version && r.last_gc_version() > *horizon;
@@ -2684,6 +2690,11 @@ impl Exec {
                 }
                 if let Some((n, sl)) = lenmismatch {
                     self.monitor_hit("C08", "announced-length", &format!("reply announces {sl} bytes but serializes to {n}"));
+                }
+                for (id, t) in taint_if_created {
+                    if self.nodes.get(&slot).map(|c| c.cc.node_state(&id).is_some()).unwrap_or(false) {
+                        taint_updates.push((id, Some(t)));
+                    }
                 }
                 for (id, t) in taint_updates {
                     match t {
